@@ -374,6 +374,9 @@ type Result struct {
 	Complete bool // the body ended the way its framing announced
 }
 
+// HeadHook, when set, is called by Do as soon as the final response head has been read, before any body byte is awaited.
+var HeadHook func()
+
 // Do writes raw request bytes to addr and reads one response.  afterWrite (optional) runs after the
 // request has been written and may close the connection (client going away); in that case Do returns
 // an empty Result.
@@ -421,6 +424,9 @@ func Do(addr, method string, raw []byte, deadline time.Duration, afterWrite func
 	}
 	res.Head = true
 	res.Headers = hs
+	if h := HeadHook; h != nil {
+		h()
+	}
 	// body: let net/http interpret the framing of the very same bytes
 	full := io.MultiReader(bytes.NewReader(headBuf.Bytes()), br)
 	resp, err := http.ReadResponse(bufio.NewReader(full), &http.Request{Method: method})
